@@ -230,7 +230,7 @@ PROPS = {
             'DECIDED: channel-max; the VALUES the timers are armed with (heartbeat period from the peer\'s idle-time-out, 0/unset => none; local deadline = configured idle-time-out, advertised value = half of it); one empty frame per heartbeat tick; none after the local Close. the local idle timer is restarted by every incoming item and by nothing the local side sends, and an elapsed timer is reported as IdleTimeoutElapsed (Transport::poll_next / start_send, unit TRANSPORT; the timer is a stand-in with a restart counter and an elapsed flag). NOT DECIDED: the timed behaviour itself (tokio Interval/Sleep): no clock in either verifier',
             'slab::Slab modelled as a partial map whose vacant key is unoccupied']),
     'C10': dict(
-        probes=[dict(name='sections_agreement', kind='agreement', target='fe2o3_amqp::link::receiver_link::count_number_of_sections_and_offset', args=['C10.sections'], claim='count_number_of_sections_and_offset (enters unit REASM as an assumed contract: number <= len, offset <= len) stays within those bounds and, for smallulong descriptors, counts exactly the 00 53 7x headers and the distance of the last one from the end', bound='every byte string of <= 7 bytes over {00,53,70,75,78,80,01} (960 800 strings), real function through the verif-hooks facade')],
+        probes=[dict(name='sections_agreement', kind='agreement', target='fe2o3_amqp::link::receiver_link::count_number_of_sections_and_offset', args=['C10.sections'], claim='count_number_of_sections_and_offset (under contract in unit REASM since session 6, with the iterator chain written as an index loop: this probe cross-checks that rewriting against the REAL function) stays within the bounds number <= len, offset <= len and, for smallulong descriptors, counts exactly the 00 53 7x headers and the distance of the last one from the end', bound='every byte string of <= 7 bytes over {00,53,70,75,78,80,01} (960 800 strings), real function through the verif-hooks facade')],
         units=['REASM', 'LINK', 'BYTEREADER', 'READERS', 'SESSION', 'WIRING', 'ACCLINK', 'LINKFLOW'], kani=[], level='proof', title='Reassembly',
         lemmas={'REASM': ['lemma_concat_push', 'lemma_concat_one'], 'BYTEREADER': ['lemma_after_take', 'lemma_flat_drained']},
         assumptions=[ASYNC,
